@@ -5,7 +5,10 @@
 (ii) property predicate on the real object: it behaves like the duplicate-free Python list kept by
      `Ref` below (len, iteration, indexing, slicing, index, count, membership with numeric aliases,
      equality, copy, pickle), auto labels are the documented ones, rejected relabels change nothing;
-(iii) the Lean list specification `LSpec.step` (what the theorems are stated against) vs `Ref`.
+(iii) the Lean list specification `LSpec.step2` (what the theorems are stated against) vs `Ref`;
+(iv) readers through the compiled model (`iter`, `contains`, `index`, `at`, `==` with a sequence / a set, the
+     auto label from the source-extracted rule, `_relabel_as_integers` + restore), exception classes of every
+     rejected call (model: `Generated.VarsRules`; list: what a Python list raises).
 """
 import copy
 import pickle
@@ -78,6 +81,75 @@ class Ref:
             return False
         self.l.remove(v)
         return True
+
+
+LIST_CLS = {'pop': 'IndexError'}   # list.pop() of an empty list; everything else a list (or the docstrings) reject: ValueError
+
+
+def labs(xs):
+    return ','.join('~' if x is None else lab(x) for x in xs) or '-'
+
+
+def readers(ctx, r, v, ref, hist, lines, expect, speclines, meta, errcls):
+    """reader lines for the compiled model + the same facts judged against the plain list"""
+    l = ref.l; n = len(l)
+
+    def emit(line, exp):
+        lines.append(line); expect.append(exp); speclines.append(None); meta.append(('reader:' + line.split(' ')[0], tuple(hist)))
+
+    def bad(site, what, expr):
+        code = repro(hist) + f"\nL = {l!r}  # expected list behaviour\nassert {expr}, {what!r}\n"
+        ctx.fail('property', f'Variables.{site}', 'reader after history', what, repro=code, detail=dict(history=hist, expected=repr(l)))
+
+    emit('iter', f"ok {','.join(lab(x) for x in v)};{len(v)}")
+    for x in r.sample(ALPHA + EXTRA_NEW, 2):
+        emit(f'contains {lab(x)}', f'ok {int(x in v)}')
+        try:
+            emit(f'index {lab(x)}', f'ok {v.index(x)}')
+        except Exception as e:  # noqa
+            emit(f'index {lab(x)}', f'err {type(e).__name__}')
+            if x not in l and type(e).__name__ != 'ValueError':
+                bad('index', f'index({x!r}) of an unknown label raised {type(e).__name__}, a list raises ValueError',
+                    f'_cls(lambda: v.index({x!r})) == "ValueError"')
+    for i in r.sample(range(-n - 1, n + 2), min(2, 2 * n + 3)):
+        try:
+            emit(f'at {i}', f'ok {lab(v[i])}')
+        except Exception as e:  # noqa
+            emit(f'at {i}', f'err {type(e).__name__}')
+            if not (-n <= i < n) and type(e).__name__ != 'IndexError':
+                bad('getitem', f'v[{i}] out of range raised {type(e).__name__}, a list raises IndexError', f'_cls(lambda: v[{i}]) == "IndexError"')
+    others = [list(l), l[1:] + l[:1], l[:-1], l + ['zz'], l[::-1]]
+    o = r.choice(others)
+    emit(f'eqseq {labs(o)}', f'ok {int(v == o)}')
+    if (v == o) != (l == o) or (v != o) != (l != o) or (v == tuple(o)) != (l == o):
+        bad('eq', f'v == {o!r} is {v == o}', f'(v == {o!r}) == (L == {o!r}) and (v != {o!r}) == (L != {o!r}) and (v == tuple({o!r})) == (L == {o!r})')
+    so = r.choice([list(l), l[:-1], l + ['zz'], l[::-1], (l[:-1] + ['zz']) if l else ['zz']])
+    r.shuffle(so)
+    fs = frozenset(so)
+    emit(f'eqset {labs(so)}', f'ok {int(v == fs)}')
+    if (v == fs) != (set(l) == fs) or (v == set(so)) != (set(l) == fs):
+        bad('eq', f'v == frozenset({so!r}) is {v == fs}', f'(v == frozenset({so!r})) == (set(L) == frozenset({so!r}))')
+    w = v.copy(); got = w._append()
+    doc = len(l)
+    if doc in l:
+        doc = 0
+        while doc in l:
+            doc += 1
+    emit('autolabel', f'ok {lab(got)}')
+    if got != doc or type(got) is not int:
+        bad('append', f'auto label {got!r}, documented {doc!r}', f'v.copy()._append() == {doc!r}')
+    w = v.copy(); m = w._relabel_as_integers(); mid = state(w)
+    try:
+        w._relabel(m); ok = True
+    except ValueError:
+        ok = False
+    ms = ','.join(f'{lab(a)}={lab(b)}' for a, b in sorted(m.items()))
+    # the model prints the mapping in its own insertion order: compare it as a set of pairs (done by the caller)
+    emit('restore', ('ok ' if ok else 'err ') + mid + ' / ' + ms + ((' / ' + state(w)) if ok else ''))
+    if mid.split(';')[0] != ','.join(lab(i) for i in range(n)) or m != {i: x for i, x in enumerate(l) if x != i} or not ok or list(w) != l:
+        bad('relabel_as_integers', f'_relabel_as_integers gave {mid.split(";")[0]} / {m!r}; relabel(mapping) {"gave " + repr(list(w)) if ok else "raised"}',
+            'w = v.copy(); m = w._relabel_as_integers(); assert list(w) == list(range(len(L))); w._relabel(m); assert list(w) == L')
+    ctx.tick('readers')
 
 
 def state(v):
@@ -160,21 +232,22 @@ def observe(ctx, r, v, ref, hist, opname):
 
 
 def repro(hist):
-    lines = ['from dimod.variables import Variables', 'import numpy as np', 'from numpy import int64, float32, float64', 'v = Variables()']
+    lines = ['from dimod.variables import Variables', 'import numpy as np, pickle', 'from numpy import int64, float32, float64', 'v = Variables()',
+             'def _cls(f):\n    try:\n        f()\n    except Exception as e:\n        return type(e).__name__\n    return None']
     for h in hist:
         lines.append('try:\n    ' + h + '\nexcept (ValueError, IndexError) as e: print("raised", e)')
     lines.append('print(list(v), v.__reduce__()[2])')
     return '\n'.join(lines)
 
 
-def one_history(ctx, r, nops, lines, expect, speclines, meta):
+def one_history(ctx, r, nops, lines, expect, speclines, meta, errcls):
     v = Variables(); ref = Ref(); hist = []
     lines.append('clear'); expect.append('ok ' + state(v)); speclines.append('ok '); meta.append(('clear', tuple()))
     for _ in range(r.randint(1, nops)):
         k = r.choice(['append', 'append', 'append', 'appendnone', 'pop', 'relabel', 'relabel', 'relabel', 'relabelints', 'remove',
-                      'relabel_absent', 'extend', 'extend_range'])
+                      'relabel_absent', 'extend', 'extend_range', 'extend_list', 'copy', 'pickle', 'slice'])
         before = state(v)
-        ok = True
+        ok = True; cls = None
         try:
             if k == 'append':
                 x = r.choice(ALPHA); p = r.random() < .5; y = alias(r, x, store=True)
@@ -206,6 +279,33 @@ def one_history(ctx, r, nops, lines, expect, speclines, meta):
                 elif sok is False and x != b - 1:
                     pass
                 v._extend(range(a, b), permissive=p)
+            elif k == 'extend_list':
+                xs = [r.choice(ALPHA + [None]) for _ in range(r.randint(0, 4))]; p = r.random() < .6
+                lines.append(f'extend {int(p)} {labs(xs)}'); hist.append(f'v._extend({xs!r}, permissive={p})')
+                sok = True
+                for x in xs:
+                    if not ref.append(x, p):
+                        sok = False
+                        break
+                v._extend(xs, permissive=p)
+            elif k == 'copy':
+                how = r.choice(['v.copy()', 'Variables(v)', 'v[:]'])
+                lines.append('copy' if how != 'v[:]' else 'slice - - -'); hist.append(f'v = {how}'); sok = True
+                v = eval(how)
+            elif k == 'pickle':
+                lines.append('pickle'); hist.append('v = pickle.loads(pickle.dumps(v))'); sok = True
+                v = pickle.loads(pickle.dumps(v))
+            elif k == 'slice':
+                n0 = len(ref.l)
+                sl = slice(r.choice([None, None, -n0 - 1, -2, -1, 0, 1, 2, n0, n0 + 2]), r.choice([None, None, -n0 - 1, -2, -1, 0, 1, 2, n0, n0 + 2]),
+                           r.choice([None, 1, 2, 3, -1, -1, -2, 0]))
+                lines.append('slice ' + ' '.join('-' if a is None else str(a) for a in (sl.start, sl.stop, sl.step)))
+                hist.append(f'v = v[{sl!r}]')
+                try:
+                    ref.l = ref.l[sl]; sok = True
+                except ValueError:
+                    sok = False
+                v = v[sl]
             elif k == 'appendnone':
                 lines.append('append - 0'); hist.append('v._append()')
                 sok = ref.append(None, False); v._append()
@@ -240,13 +340,20 @@ def one_history(ctx, r, nops, lines, expect, speclines, meta):
             elif k == 'remove':
                 x = r.choice(ALPHA); lines.append(f'remove {lab(x)}'); hist.append(f'v._remove({x!r})')
                 sok = ref.remove(x); v._remove(x)
-        except (ValueError, IndexError):
-            ok = False
+        except (ValueError, IndexError) as e:
+            ok = False; cls = type(e).__name__
         except Exception as e:  # any other exception type is itself a deviation from list behaviour
-            ok = False
+            ok = False; cls = type(e).__name__
             ctx.fail('property', f'Variables.{k}', 'unexpected exception type', f'{type(e).__name__}: {e}',
                      repro=repro(hist) + '\nassert False', detail=dict(history=list(hist)))
         ctx.tick(k + ('' if ok else ':raises'))
+        if cls is not None:
+            errcls[len(expect)] = cls
+            if not sok and cls != LIST_CLS.get(k, 'ValueError') and cls in ('ValueError', 'IndexError'):
+                last = hist[-1]
+                ctx.fail('property', f'Variables.{k}', 'exception class', f'`{last}` raised {cls}; a list (and the documented contract) raises {LIST_CLS.get(k, "ValueError")}',
+                         repro=repro(hist[:-1]) + f'\nassert _cls(lambda: {last.replace("v = ", "")}) == {LIST_CLS.get(k, "ValueError")!r}', detail=dict(history=list(hist)))
+                return
         expect.append(('ok ' if ok else 'err ') + state(v))
         speclines.append(('ok ' if sok else 'err ') + ','.join(lab(x) for x in ref.l))
         meta.append((k, tuple(hist)))
@@ -256,7 +363,7 @@ def one_history(ctx, r, nops, lines, expect, speclines, meta):
             ctx.fail('property', f'Variables.{k}', 'accept/reject', f'call {"returned" if ok else "raised"} but the list semantics {"accepts" if sok else "rejects"} it',
                      repro=repro(hist) + '\nassert False', detail=dict(history=list(hist)))
             return
-        if not ok and state(v) != before and k != 'extend_range':  # _extend is a fold of _append: a raising extend keeps the appended prefix
+        if not ok and state(v) != before and k not in ('extend_range', 'extend_list'):  # _extend is a fold of _append: a raising extend keeps the appended prefix
             ctx.fail('property', f'Variables.{k}', 'changed on raise', f'state changed by a call that raised: {before} -> {state(v)}',
                      repro=repro(hist) + '\nassert False', detail=dict(history=list(hist)))
             return
@@ -264,6 +371,10 @@ def one_history(ctx, r, nops, lines, expect, speclines, meta):
         observe(ctx, r, v, ref, list(hist), k)
         if ctx.nfail() != nf:
             return
+        if r.random() < .35:
+            readers(ctx, r, v, ref, list(hist), lines, expect, speclines, meta, errcls)
+            if ctx.nfail() != nf:
+                return
 
 
 def sweep(ctx, lines, expect, speclines, meta):
@@ -318,9 +429,9 @@ def run(ctx):
     ctx.rule = ('random histories of semi-public Variables mutators over a mixed alphabet (ints incl. negative, numeric aliases, '
                 'strings, nested tuples); a case = one operation in its history; non-trivial = the state changed or the call raised; '
                 'distinct by (op line, state before)')
-    lines, expect, speclines, meta = [], [], [], []
+    lines, expect, speclines, meta, errcls = [], [], [], [], {}
     for _ in range(nhist):
-        one_history(ctx, r, 30, lines, expect, speclines, meta)
+        one_history(ctx, r, 30, lines, expect, speclines, meta, errcls)
         if len([f for f in ctx.failures if f['kind'] == 'property']) >= 8:
             break
     if not ctx.quick:
@@ -330,11 +441,24 @@ def run(ctx):
     for i, ln in enumerate(lines):
         g = got[i] if i < len(got) else 'MISSING'
         gm, _, gs = g.partition(' | ')
+        gs, _, gc = gs.partition(' | ')
+        if ln == 'restore':
+            # the returned mapping is a dict: compare it as a set of pairs
+            def norm(t):
+                parts = t.split(' / ')
+                if len(parts) > 1:
+                    parts[1] = ','.join(sorted(parts[1].split(',')))
+                return ' / '.join(parts)
+            gm = norm(gm); expect[i] = norm(expect[i])
+        if i in errcls and gm == expect[i] and gc != errcls[i]:
+            ctx.fail('correspondence', 'Variables vs VState', meta[i][0] + ': exception class', f'line {i} `{ln}`: impl raised {errcls[i]}, model names {gc or "none"}',
+                     detail=dict(history=list(meta[i][1])))
+            break
         if gm != expect[i]:
             ctx.fail('correspondence', 'Variables vs VState', meta[i][0], f'line {i} `{ln}`: impl `{expect[i]}` model `{gm}`',
                      detail=dict(history=list(meta[i][1])))
             break
-        if ln != 'clear' and gs != speclines[i]:
+        if ln != 'clear' and speclines[i] is not None and gs != speclines[i]:
             ctx.fail('correspondence', 'LSpec vs reference list', meta[i][0], f'line {i} `{ln}`: python list `{speclines[i]}` Lean spec `{gs}`',
                      detail=dict(history=list(meta[i][1])))
             break
